@@ -119,6 +119,9 @@ pub const EV_GUARD_LOAD: u8 = 4;
 pub const EV_CHECK_GUARD: u8 = 5;
 /// a resize of table `a` with `b` bins was initiated (next table allocated)
 pub const EV_RESIZE_INIT: u8 = 6;
+/// the compare-exchange on location `a` that was just announced through `atomic` failed (only its
+/// failure ordering applies)
+pub const EV_CAS_FAILED: u8 = 7;
 
 #[inline]
 pub fn collector_id(guard: &seize::Guard<'_>) -> usize {
@@ -227,7 +230,11 @@ macro_rules! traced_int {
                 f: Ordering,
             ) -> Result<$prim, $prim> {
                 atomic(self.a(), CAS, s, f);
-                self.0.compare_exchange(c, n, s, f)
+                let r = self.0.compare_exchange(c, n, s, f);
+                if r.is_err() {
+                    event(EV_CAS_FAILED, self.a(), 0);
+                }
+                r
             }
             pub fn compare_exchange_weak(
                 &self,
@@ -237,7 +244,11 @@ macro_rules! traced_int {
                 f: Ordering,
             ) -> Result<$prim, $prim> {
                 atomic(self.a(), CAS, s, f);
-                self.0.compare_exchange_weak(c, n, s, f)
+                let r = self.0.compare_exchange_weak(c, n, s, f);
+                if r.is_err() {
+                    event(EV_CAS_FAILED, self.a(), 0);
+                }
+                r
             }
             pub fn swap(&self, v: $prim, o: Ordering) -> $prim {
                 atomic(self.a(), RMW, o, o);
@@ -334,7 +345,11 @@ impl<T> AtomicPtr<T> {
         f: Ordering,
     ) -> Result<*mut T, *mut T> {
         atomic(self.a(), CAS, s, f);
-        self.0.compare_exchange(c, n, s, f)
+        let r = self.0.compare_exchange(c, n, s, f);
+        if r.is_err() {
+            event(EV_CAS_FAILED, self.a(), 0);
+        }
+        r
     }
     pub fn compare_exchange_weak(
         &self,
@@ -344,7 +359,11 @@ impl<T> AtomicPtr<T> {
         f: Ordering,
     ) -> Result<*mut T, *mut T> {
         atomic(self.a(), CAS, s, f);
-        self.0.compare_exchange_weak(c, n, s, f)
+        let r = self.0.compare_exchange_weak(c, n, s, f);
+        if r.is_err() {
+            event(EV_CAS_FAILED, self.a(), 0);
+        }
+        r
     }
     pub fn fetch_update<F: FnMut(*mut T) -> Option<*mut T>>(
         &self,
